@@ -156,8 +156,21 @@ func C01(o *core.Options) int {
 		r.Count("worlds_flat_family", 1)
 		run(env, w)
 	})
-	nodes = save
 	lap("flat")
+	// n-ary union / intersection nodes over three documents (ref.NaryFamily): every tuple subset of size <= 4
+	nu := ref.NaryUniverse()
+	on := opts
+	on.K, on.U = 4, nu
+	nodes = e2.RequestNodes(nu)
+	e2.Sweep(r, e2.ValidModels(ref.NaryFamily()), on, func(env *e2.Env, w *ref.World) {
+		if len(w.Tuples) == 0 {
+			return
+		}
+		r.Count("worlds_nary_family", 1)
+		run(env, w)
+	})
+	nodes = save
+	lap("nary")
 	// contextual tuple with the key of a stored tuple (different condition/context)
 	if !o.Thorough() {
 		e2.ShadowExtraStride = 6
